@@ -695,6 +695,22 @@ func (c *c09ctx) analyseFunc(fn *ssa.Function) {
 				}
 				k := c.ke.kinds(st, ev.Args[0])
 				c.record(ins, "reflect-type", f.Name()+":Type."+name, k.SubsetOf(req), fmt.Sprintf("reflect.Type.%s requires kind %s; the type here may be %s", name, req, k), st)
+				return
+			}
+			// a method called through an interface that is not the module's own (nor error, nor reflect.Type): the method is
+			// somebody else's code — for a value taken from the datum, the caller's — and a typed nil pointer reaches it
+			it := com.Value.Type()
+			own := false
+			if nt, isNamed := it.(*types.Named); isNamed {
+				if nt.Obj().Pkg() == nil {
+					own = true // error
+				} else if pth := nt.Obj().Pkg().Path(); pth == modPath || pth == grammarPath {
+					own = true
+				}
+			}
+			if !own {
+				c.record(ins, "foreign-invoke", f.Name()+":invoke:"+types.TypeString(it, nil)+"."+com.Method.Name(), false,
+					"method "+com.Method.Name()+" is called through "+types.TypeString(it, nil)+" on a value that is not the library's own: it runs code the library does not control, also for a typed nil pointer", st)
 			}
 			return
 		}
